@@ -62,9 +62,9 @@ def seeded():
             status = 'as delivered'
         po = tw = ''
         if det:
-            po = '; '.join(x.replace('_post.', ' :: ').replace(' (no-failing-input-found)', '') for x in det['proof_obligations'][:3])
-            if len(det['proof_obligations']) > 3:
-                po += ' (+%d)' % (len(det['proof_obligations']) - 3)
+            po = '; '.join(x.replace('_post.', ' :: ').replace(' (no-failing-input-found)', '') for x in det['proof_obligations'][:2])
+            if len(det['proof_obligations']) > 2:
+                po += ' (+%d)' % (len(det['proof_obligations']) - 2)
             tw = '; '.join(x[len('twin_'):] for x in det['twin_clauses'][:2])
             if len(det['twin_clauses']) > 2:
                 tw += ' (+%d)' % (len(det['twin_clauses']) - 2)
